@@ -6,17 +6,18 @@ import os
 import re
 import shutil
 
-SRC = "/tmp/mut"
+SRCS = [("/tmp/mut", ""), ("/tmp/mut3", "3")]      # (directory of the sub-agents' worktrees, wave prefix of the ids)
 CONF = "/tmp/confirm"
 OUT = "/verif/seeded"
 det = json.load(open("/verif/seeded/detection.json")) if os.path.exists("/verif/seeded/detection.json") else {}
 os.makedirs(OUT, exist_ok=True)
-for d in sorted(glob.glob(f"{SRC}/C*/_mutant")):
+for d, wave in [(d, w) for SRC, w in SRCS for d in sorted(glob.glob(f"{SRC}/C*/_mutant"))]:
     prop = d.split("/")[-2]
     for diff in sorted(glob.glob(f"{d}/?.diff") + glob.glob(f"{d}/Bx.diff")):
-        x = os.path.basename(diff)[:-5]
-        if prop == "C10" and x == "B":
+        x0 = os.path.basename(diff)[:-5]
+        if prop == "C10" and x0 == "B" and not wave:
             continue          # superseded by Bx (rebased onto the repaired tree)
+        x = wave + x0
         log = f"{CONF}/{prop}_{x}.log"
         if not os.path.exists(log):
             print("no confirmation yet:", prop, x)
@@ -31,9 +32,9 @@ for d in sorted(glob.glob(f"{SRC}/C*/_mutant")):
         dst = f"{OUT}/{prop}-{x}"
         os.makedirs(dst, exist_ok=True)
         shutil.copy(diff, f"{dst}/patch.diff")
-        demo = f"{d}/{x}_demo.py"
+        demo = f"{d}/{x0}_demo.py"
         shutil.copy(demo, f"{dst}/demo.py")
-        meta_src = f"{d}/{x if x != 'Bx' else 'B'}_meta.json"
+        meta_src = f"{d}/{x0 if x0 != 'Bx' else 'B'}_meta.json"
         am = json.load(open(meta_src)) if os.path.exists(meta_src) else {}
         meta = {
             "id": f"{prop}-{x}",
